@@ -258,6 +258,20 @@ func (p *SackPeer) AcceptedCount() int {
 	return p.Accepted
 }
 
+// AcceptOne accepts one connection (blocking up to d) and returns the tool's local port.
+func (p *SackPeer) AcceptOne(d time.Duration) (uint16, error) {
+	p.ln.SetDeadline(time.Now().Add(d))
+	c, err := p.ln.Accept()
+	if err != nil {
+		return 0, err
+	}
+	p.mu.Lock()
+	p.conns = append(p.conns, c)
+	p.Accepted++
+	p.mu.Unlock()
+	return c.RemoteAddr().(*net.TCPAddr).AddrPort().Port(), nil
+}
+
 // OnFilter must be chained into Wire.OnFilter.
 func (p *SackPeer) OnFilter(h *simnet.Handle, spec packets.PacketFilterSpec) {
 	if spec.FilterType == packets.FilterTypeSYNACK && h.Target == p.Addr.Addr() {
